@@ -241,6 +241,7 @@ class UnionConverter(Converter[t.Any]):
         self.types = tuple(flatten_union_args(types))
         self.converters = tuple(make_converter(ty, handlers) for ty in types)
         self.constructor = constructor
+        self.handlers = handlers
 
     def expected(self, plural: bool = False) -> str:
         """See [`Converter.expected`][pane.converters.Converter.expected]"""
@@ -264,8 +265,10 @@ class UnionConverter(Converter[t.Any]):
             if isinstance(conv, TaggedUnionConverter) \
                     and isinstance(val, tuple(ty for ty in conv.types if isinstance(ty, type))):
                 return conv.into_data(val)
-        # default to regular conversion
-        return into_data(val)
+        # default to regular conversion (by runtime type, with the custom converters in effect here)
+        if not len(tuple(self.handlers)):
+            return into_data(val)
+        return make_converter(t.cast(t.Type[t.Any], type(val)), self.handlers).into_data(val)
 
     def construct(self, val: t.Any, i: int) -> t.Any:
         if self.constructor is None:
